@@ -227,6 +227,18 @@ class TrS:
                 return True
         return False
 
+    def translates_as_expression(self, node):
+        saved = (list(self.hoist), self.fresh, dict(self.env), self.lazy_depth, getattr(self, 'uses_resolve', False), set(self.assumptions))
+        try:
+            self.expr(node)
+            return True
+        except Untranslatable:
+            return False
+        finally:
+            self.hoist, self.fresh, self.env, self.lazy_depth, self.uses_resolve = saved[0], saved[1], saved[2], saved[3], saved[4]
+            self.assumptions.clear()
+            self.assumptions.update(saved[5])
+
     @staticmethod
     def iteration_local(stmts, cont_term=False):
         """loop body whose assignments cannot outlive the iteration: after every assignment all paths return / raise before the body ends
@@ -329,8 +341,10 @@ class TrS:
             # `v = None; w = e; for ...`: the two assignments commute (e does not mention v); moving `v = None` next to its loop lets the
             # find-first idiom be recognised
             s, tail = tail[0], [s] + list(tail[1:])
-        if isinstance(s, ast.Assign) and len(s.targets) == 1 and isinstance(s.targets[0], ast.Name) and isinstance(s.value, ast.IfExp):
-            # `x = a if c else b` is `if c: x = a` / `else: x = b` (calls and x[i] stay in their branch)
+        if isinstance(s, ast.Assign) and len(s.targets) == 1 and isinstance(s.targets[0], ast.Name) and isinstance(s.value, ast.IfExp) \
+                and not self.translates_as_expression(s.value):
+            # `x = a if c else b` whose branches need a bind (a call, x[i]) is `if c: x = a` / `else: x = b`, so that the bind stays in its branch;
+            # a conditional expression that translates as such stays one
             s = ast.If(test=s.value.test, body=[ast.Assign(targets=s.targets, value=s.value.body)],
                        orelse=[ast.Assign(targets=s.targets, value=s.value.orelse)])
         ff = self.find_first(s, tail)
